@@ -156,3 +156,258 @@ def check_method(ctx, rule, fx, adt_suffix, method, reach, delegates=(), impl_se
             ok = any(fv[1] == f for fv in got) or ("('place', 'self.%s')" % f) in r
             ctx.add(rule, "%s::%s:%s" % (hq.last(path), method, f), ok, ctx.site(b), "field `%s` of %s %s visited by %s" % (f, hq.last(path), "is" if ok else "is NOT", method))
     return n
+
+
+def check_variable_leaves(ctx, rule, fx):
+    """the leaves of the `variables` collectors: a variable occurrence of each term sort is reported as the variable (its name, that sort) and
+    nothing else; a constant or a numeral reports nothing.  Evaluated on one literal node per constructor, so the spelling of the match is free."""
+    from . import sym
+    from .leaves import norm
+    S = "syntax_tree::fol::sigma_0::"
+    V = ("param", "$v")
+    n = 0
+    for adt, sort in (("GeneralTerm", "General"), ("IntegerTerm", "Integer"), ("SymbolicTerm", "Symbol")):
+        bs = [b for b in fx.body_list if b["name"] == "variables" and b.get("impl", {}).get("self_ty") == S + adt and "trait" not in b.get("impl", {})]
+        if len(bs) != 1:
+            ctx.gap(rule, "leaf:variable:" + adt, "", "%s::variables not found" % adt)
+            continue
+        b = bs[0]
+        site = ctx.site(b)
+        node = ("ctor", "%s::Variable" % adt, (("0", V),))
+        v = norm(sym.Eval(fx, inline_depth=0).function(b, [node]))
+        found = [x for x in sym.subterms(v) if isinstance(x, tuple) and x[:2] == ("ctor", "Variable")]
+        want = ("ctor", "Variable", (("name", V), ("sort", ("ctor", "Sort::" + sort, ()))))
+        ok = len(found) == 1 and found[0] == want and not [x for x in sym.subterms(v) if isinstance(x, tuple) and x[:1] in (("match",), ("if",), ("phi",))]
+        ctx.add(rule, "leaf:variable:" + adt, ok, site, "a %s variable occurrence is collected as the variable (name, %s) - the sort it is bound and substituted at" % (adt, sort), construct=v)
+        n += 1
+        # constants of that sort report no variable
+        others = {"GeneralTerm": ("Infimum", "Supremum", "FunctionConstant"), "IntegerTerm": ("Numeral", "FunctionConstant"), "SymbolicTerm": ("Symbol", "FunctionConstant")}[adt]
+        bad = []
+        for o in others:
+            node = ("ctor", "%s::%s" % (adt, o), (("0", ("param", "$x")),) if o not in ("Infimum", "Supremum") else ())
+            vo = norm(sym.Eval(fx, inline_depth=0).function(b, [node]))
+            if [x for x in sym.subterms(vo) if isinstance(x, tuple) and x[:2] == ("ctor", "Variable")] or "$x" in repr(vo):
+                bad.append(o)
+        ctx.add(rule, "leaf:non-variable:" + adt, not bad, site, "constants and numerals of sort %s contribute no variable" % sort, construct=bad or None)
+        n += 1
+    return n
+
+
+def check_function_constant_leaves(ctx, rule, fx):
+    """a placeholder occurrence inside a term of sort s is collected as a function constant of sort s (the sort its occurrence is printed at and
+    its declaration is generated from)"""
+    from . import sym
+    from .leaves import norm
+    S = "syntax_tree::fol::sigma_0::"
+    C_ = ("param", "$c")
+    for adt, sort in (("GeneralTerm", "General"), ("IntegerTerm", "Integer"), ("SymbolicTerm", "Symbol")):
+        bs = [b for b in fx.body_list if b["name"] == "function_constants" and b.get("impl", {}).get("self_ty") == S + adt and "trait" not in b.get("impl", {})]
+        if len(bs) != 1:
+            ctx.gap(rule, "leaf:function-constant:" + adt, "", "%s::function_constants not found" % adt)
+            continue
+        node = ("ctor", "%s::FunctionConstant" % adt, (("0", C_),))
+        v = norm(sym.Eval(fx, inline_depth=0).function(bs[0], [node]))
+        found = [x for x in sym.subterms(v) if isinstance(x, tuple) and x[:2] == ("ctor", "FunctionConstant")]
+        want = ("ctor", "FunctionConstant", (("name", C_), ("sort", ("ctor", "Sort::" + sort, ()))))
+        ctx.add(rule, "leaf:function-constant:" + adt, len(found) == 1 and found[0] == want, ctx.site(bs[0]),
+                "a %s function constant is collected with sort %s (the sort its occurrence is printed at)" % (adt, sort), construct=v)
+
+
+def check_variable_conversions(ctx, rule, fx, which=("from", "try_from")):
+    """`GeneralTerm::from(Variable)` and `Variable::try_from(GeneralTerm)`: a variable of sort s is the variable occurrence of the term sort s
+    and back (name kept); anything that is not a variable occurrence is handed back as the error.  One evaluation per sort / constructor."""
+    from . import sym
+    from .leaves import norm
+    S = "syntax_tree::fol::sigma_0::"
+    N = ("param", "$n")
+    occ = {"General": ("ctor", "GeneralTerm::Variable", (("0", N),)),
+           "Integer": ("ctor", "GeneralTerm::IntegerTerm", (("0", ("ctor", "IntegerTerm::Variable", (("0", N),))),)),
+           "Symbol": ("ctor", "GeneralTerm::SymbolicTerm", (("0", ("ctor", "SymbolicTerm::Variable", (("0", N),))),))}
+
+    def impl_fn(name, self_ty, trait_part):
+        bs = [b for b in fx.body_list if b["name"] == name and b.get("impl", {}).get("self_ty") == S + self_ty and trait_part in b.get("impl", {}).get("trait", "")]
+        return bs[0] if len(bs) == 1 else None
+    if "from" in which:
+        b = impl_fn("from", "GeneralTerm", "From<" + S + "Variable>")
+        if b is None:
+            ctx.gap(rule, "conv:variable-to-term", "", "impl From<Variable> for GeneralTerm not found")
+        else:
+            for sort, want in occ.items():
+                var = ("ctor", "Variable", (("name", N), ("sort", ("ctor", "Sort::" + sort, ()))))
+                v = norm(sym.Eval(fx, inline_depth=0).function(b, [var]))
+                ctx.add(rule, "conv:variable-to-term:" + sort, v == want, ctx.site(b), "a %s variable becomes a variable occurrence of the %s term sort (what a renamed binder is replaced by)" % (sort, sort),
+                        construct=v)
+    if "try_from" in which:
+        b = impl_fn("try_from", "Variable", "TryFrom<" + S + "GeneralTerm>")
+        if b is None:
+            ctx.gap(rule, "conv:term-to-variable", "", "impl TryFrom<GeneralTerm> for Variable not found")
+        else:
+            for sort, node in occ.items():
+                want = ("ctor", "Result::Ok", (("0", ("ctor", "Variable", (("name", N), ("sort", ("ctor", "Sort::" + sort, ()))))),))
+                v = norm(sym.Eval(fx, inline_depth=0).function(b, [node]))
+                ctx.add(rule, "conv:term-to-variable:" + sort, v == want, ctx.site(b), "a %s variable occurrence is the variable (name, %s); sorts are not merged" % (sort, sort), construct=v)
+            others = {"Infimum": ("ctor", "GeneralTerm::Infimum", ()), "FunctionConstant": ("ctor", "GeneralTerm::FunctionConstant", (("0", ("param", "$c")),)),
+                      "Numeral": ("ctor", "GeneralTerm::IntegerTerm", (("0", ("ctor", "IntegerTerm::Numeral", (("0", ("param", "$k")),))),)),
+                      "Symbol": ("ctor", "GeneralTerm::SymbolicTerm", (("0", ("ctor", "SymbolicTerm::Symbol", (("0", ("param", "$s")),))),))}
+            bad = [k for k, node in others.items() if norm(sym.Eval(fx, inline_depth=0).function(b, [node]))[:2] != ("ctor", "Result::Err")]
+            ctx.add(rule, "conv:term-to-variable:others", not bad, ctx.site(b), "a term that is not a variable occurrence is not a variable: %s" % (bad or "all refused"))
+
+
+def check_asp_predicate_collectors(ctx, rule, fx):
+    """the predicates of a program: every rule contributes the predicate of its head (if it has one) and the predicates of every body literal,
+    whatever the head is; compared in comprehension form (a loop with extend and a flat_map chain are the same)"""
+    from . import sym, comp
+    from .leaves import norm
+    comp.use(fx)
+    A = "syntax_tree::asp::mini_gringo::"
+    SELF = ("param", "$self")
+
+    def body_of(ty, m):
+        bs = [b for b in fx.body_list if b["name"] == m and b.get("impl", {}).get("self_ty") == A + ty and "trait" not in b.get("impl", {})]
+        return bs[0] if len(bs) == 1 else None
+
+    def union_over(field, elem_call):
+        src = ("fieldof", SELF, field)
+        inner = ("call", elem_call, (("at", src),))
+        return ("coll", (((src, inner), ((frozenset(), ("at", inner)),)),))
+    for ty, m, field, elem in (("Program", "predicates", "rules", "Rule::predicates"), ("Body", "predicates", "formulas", "AtomicFormula::predicates"),
+                               ("Body", "positive_predicates", "formulas", "AtomicFormula::positive_predicates")):
+        b = body_of(ty, m)
+        if b is None:
+            ctx.gap(rule, "asp:%s::%s" % (ty, m), "", "collector not found")
+            continue
+        v = comp.canon(sym.Eval(fx, inline_depth=0).function(b, [SELF]))
+        ctx.add(rule, "asp:%s::%s" % (ty, m), v == union_over(field, elem), ctx.site(b), "%s::%s is the union of %s over every element of self.%s" % (ty, m, elem, field), construct=v)
+    b = body_of("Rule", "predicates")
+    if b is None:
+        ctx.gap(rule, "asp:Rule::predicates", "", "collector not found")
+    else:
+        v = comp.canon(sym.Eval(fx, inline_depth=0).function(b, [SELF]))
+        hp = ("call", "Head::predicate", (("fieldof", SELF, "head"),))
+        bp = ("call", "Body::predicates", (("fieldof", SELF, "body"),))
+        ref = ("coll", (((), ((frozenset({("is", hp, "Option::Some")}), ("proj", hp, (("Option::Some", "0"),))),)), ((bp,), ((frozenset(), ("at", bp)),))))
+        ctx.add(rule, "asp:Rule::predicates", v == ref, ctx.site(b), "a rule contributes its head predicate when it has one, and the predicates of its body in every case (a constraint too)", construct=v)
+    b = body_of("Program", "head_predicates")
+    if b is not None:
+        v = comp.canon(sym.Eval(fx, inline_depth=0).function(b, [SELF]))
+        src = ("fieldof", SELF, "rules")
+        hp = ("call", "Head::predicate", (("fieldof", ("at", src), "head"),))
+        ref = ("coll", (((src,), ((frozenset({("is", hp, "Option::Some")}), ("proj", hp, (("Option::Some", "0"),))),)),))
+        ctx.add(rule, "asp:Program::head_predicates", v == ref, ctx.site(b), "the head predicates are the predicates of the heads of all rules", construct=v)
+    # leaves: per constructor
+    b = body_of("AtomicFormula", "predicates")
+    if b is not None:
+        lit = norm(sym.Eval(fx, inline_depth=0).function(b, [("ctor", "AtomicFormula::Literal", (("0", ("param", "$l")),))]))
+        cmp_ = norm(sym.Eval(fx, inline_depth=0).function(b, [("ctor", "AtomicFormula::Comparison", (("0", ("param", "$c")),))]))
+        ok = ("call", "Literal::predicate", (("param", "$l"),)) in list(sym.subterms(lit)) and "$c" not in repr(cmp_) and "Literal::predicate" not in repr(cmp_)
+        ctx.add(rule, "asp:AtomicFormula::predicates", ok, ctx.site(b), "a literal (of any sign) contributes its predicate, a comparison none", construct=[lit, cmp_])
+    b = body_of("Head", "predicate")
+    if b is not None:
+        outs = {}
+        for k_, node in (("Basic", ("ctor", "Head::Basic", (("0", ("param", "$a")),))), ("Choice", ("ctor", "Head::Choice", (("0", ("param", "$a")),))), ("Falsity", ("ctor", "Head::Falsity", ()))):
+            outs[k_] = norm(sym.Eval(fx, inline_depth=0).function(b, [node]))
+        some = ("ctor", "Option::Some", (("0", ("call", "Atom::predicate", (("param", "$a"),))),))
+        ctx.add(rule, "asp:Head::predicate", outs["Basic"] == some and outs["Choice"] == some and outs["Falsity"] == ("ctor", "Option::None", ()), ctx.site(b),
+                "basic and choice heads have the predicate of their atom, #false none", construct=outs)
+    b = body_of("Literal", "predicate")
+    if b is not None:
+        v = norm(sym.Eval(fx, inline_depth=0).function(b, [SELF]))
+        ctx.add(rule, "asp:Literal::predicate", v == ("call", "Atom::predicate", (("fieldof", SELF, "atom"),)), ctx.site(b), "the predicate of a literal is that of its atom", construct=v)
+    b = body_of("Atom", "predicate")
+    if b is not None:
+        v = norm(sym.Eval(fx, inline_depth=0).function(b, [SELF]))
+        ref = ("ctor", "Predicate", (("arity", ("call", "Vec::len", (("fieldof", SELF, "terms"),))), ("symbol", ("fieldof", SELF, "predicate_symbol"))))
+        ctx.add(rule, "asp:Atom::predicate", v == ref, ctx.site(b), "predicate = (symbol, number of terms)", construct=v)
+
+
+def check_replace_placeholders(ctx, rule, fx):
+    """replace_placeholders reaches every term of a formula: Atom (every term), Guard, Comparison (the term and every guard), AtomicFormula, Formula
+    (every atomic node, through Apply), Theory / Specification (every formula), AnnotatedFormula (the formula); at a symbolic constant that is a
+    placeholder name it puts the placeholder of the declared sort.  Compared in comprehension form / per constructor, not by spelling."""
+    from . import sym, comp, leaves
+    comp.use(fx)
+    S = "syntax_tree::fol::sigma_0::"
+    SELF, M = ("param", "$self"), ("param", "$m")
+
+    def body(ty):
+        bs = [b for b in fx.body_list if b["name"] == "replace_placeholders" and b.get("impl", {}).get("self_ty") == S + ty and "trait" not in b.get("impl", {})]
+        return bs[0] if len(bs) == 1 else None
+
+    def rp(ty, x):
+        return ("call", ty + "::replace_placeholders", (x, M))
+
+    def each(src, f):
+        return ("coll", (((src,), ((frozenset(), f(("at", src))),)),))
+
+    def F(x, f):
+        return ("fieldof", x, f)
+    refs = {
+        "Atom": ("ctor", "Atom", (("predicate_symbol", F(SELF, "predicate_symbol")), ("terms", each(F(SELF, "terms"), lambda e: rp("GeneralTerm", e))))),
+        "Guard": ("ctor", "Guard", (("relation", F(SELF, "relation")), ("term", rp("GeneralTerm", F(SELF, "term"))))),
+        "Comparison": ("ctor", "Comparison", (("guards", each(F(SELF, "guards"), lambda e: rp("Guard", e))), ("term", rp("GeneralTerm", F(SELF, "term"))))),
+        "Theory": each(SELF, lambda e: rp("Formula", e)),
+        "Specification": each(SELF, lambda e: rp("AnnotatedFormula", e)),
+    }
+    for ty, ref in refs.items():
+        b = body(ty)
+        if b is None:
+            ctx.gap(rule, "placeholders:" + ty, "", "%s::replace_placeholders not found" % ty)
+            continue
+        v = comp.canon(sym.Eval(fx, inline_depth=0).function(b, [SELF, M]))
+        if ty in ("Theory", "Specification") and isinstance(v, tuple) and v[:1] == ("ctor",):
+            v = dict(v[2]).get("formulas")      # written as a struct literal instead of through FromIterator
+            ref = each(F(SELF, "formulas"), (lambda e: rp("Formula", e)) if ty == "Theory" else (lambda e: rp("AnnotatedFormula", e)))
+        ctx.add(rule, "placeholders:" + ty, v == ref, ctx.site(b), "%s::replace_placeholders rewrites every part that can hold a term and keeps the rest" % ty, construct=v)
+    b = body("AnnotatedFormula")
+    if b is not None:
+        v = comp.canon(sym.Eval(fx, inline_depth=0).function(b, [SELF, M]))
+        want = rp("Formula", F(SELF, "formula"))
+        ok = (v[:1] == ("upd",) and v[1] == SELF and v[2].startswith("assign-field") and v[2].endswith(".formula") and v[3] == (want,)) or \
+            (v[:2] == ("ctor", "AnnotatedFormula") and dict(v[2]).get("formula") == want and all(val == F(SELF, k_) for k_, val in v[2] if k_ not in ("formula", "..")))
+        ctx.add(rule, "placeholders:AnnotatedFormula", ok, ctx.site(b), "the formula of an annotated formula is rewritten, name / role / direction kept", construct=v)
+    b = body("AtomicFormula")
+    if b is not None:
+        outs = {}
+        for k_, node in (("Atom", ("ctor", "AtomicFormula::Atom", (("0", ("param", "$a")),))), ("Comparison", ("ctor", "AtomicFormula::Comparison", (("0", ("param", "$c")),))),
+                         ("Truth", ("ctor", "AtomicFormula::Truth", ())), ("Falsity", ("ctor", "AtomicFormula::Falsity", ()))):
+            outs[k_] = leaves.norm(sym.Eval(fx, inline_depth=0).function(b, [node, M]))
+        ok = outs["Atom"] == ("ctor", "AtomicFormula::Atom", (("0", rp("Atom", ("param", "$a"))),)) and outs["Comparison"] == ("ctor", "AtomicFormula::Comparison", (("0", rp("Comparison", ("param", "$c"))),)) \
+            and outs["Truth"] == ("ctor", "AtomicFormula::Truth", ()) and outs["Falsity"] == ("ctor", "AtomicFormula::Falsity", ())
+        ctx.add(rule, "placeholders:AtomicFormula", ok, ctx.site(b), "atoms and comparisons are entered, #true / #false unchanged", construct=outs)
+    b = body("Formula")
+    if b is not None:
+        ev = sym.Eval(fx, inline_depth=0)
+        node = ("ctor", "Formula::AtomicFormula", (("0", ("param", "$af")),))
+        ev.closure_args = [[node]]
+        v = ev.function(b, [SELF, M])
+        ok = v[:2] == ("call", "Apply::apply") and v[2][0] == SELF and v[2][1][:1] == ("closure",) and leaves.norm(v[2][1][2]) == ("ctor", "Formula::AtomicFormula", (("0", rp("AtomicFormula", ("param", "$af"))),))
+        ev2 = sym.Eval(fx, inline_depth=0)
+        other = ("ctor", "Formula::UnaryFormula", (("connective", ("param", "$u")), ("formula", ("param", "$f"))))
+        ev2.closure_args = [[other]]
+        v2 = ev2.function(b, [SELF, M])
+        ok = ok and v2[:2] == ("call", "Apply::apply") and leaves.norm(v2[2][1][2]) == other
+        ctx.add(rule, "placeholders:Formula", ok, ctx.site(b), "every atomic node of the formula is rewritten (through Apply::apply, which reaches every node), nothing else changes", construct=v)
+    b = body("GeneralTerm")
+    if b is not None:
+        Sy = ("param", "$s")
+        node = ("ctor", "GeneralTerm::SymbolicTerm", (("0", ("ctor", "SymbolicTerm::Symbol", (("0", Sy),))),))
+        lv = [(ts, comp.canon(val)) for ts, val in leaves.leaves(comp.case_of_case(leaves.lift(sym.Eval(fx, inline_depth=0).function(b, [node, M]))))]
+        G = ("call", "IndexMap::get", (M, Sy))
+        SORT = ("fieldof", ("proj", G, (("Option::Some", "0"),)), "sort")
+        hit = ("is", G, "Option::Some")
+        ref = [((hit, ("is", SORT, "Sort::General")), ("ctor", "GeneralTerm::FunctionConstant", (("0", Sy),))),
+               ((hit, ("is", SORT, "Sort::Integer")), ("ctor", "GeneralTerm::IntegerTerm", (("0", ("ctor", "IntegerTerm::FunctionConstant", (("0", Sy),))),))),
+               ((hit, ("is", SORT, "Sort::Symbol")), ("ctor", "GeneralTerm::SymbolicTerm", (("0", ("ctor", "SymbolicTerm::FunctionConstant", (("0", Sy),))),))),
+               ((("not", (hit,)),), node)]
+        try:
+            same, wit = leaves.same_decision(lv, ref)
+        except OverflowError:
+            same, wit = False, "too many conditions"
+        ctx.add(rule, "placeholders:symbol", same, ctx.site(b), "a symbolic constant that names a placeholder becomes the placeholder of its declared sort; any other stays", construct=wit)
+        bad = []
+        for k_, n_ in (("Variable", ("ctor", "GeneralTerm::Variable", (("0", ("param", "$v")),))), ("FunctionConstant", ("ctor", "GeneralTerm::FunctionConstant", (("0", ("param", "$c")),))),
+                       ("Infimum", ("ctor", "GeneralTerm::Infimum", ())), ("IntegerTerm", ("ctor", "GeneralTerm::IntegerTerm", (("0", ("param", "$i")),))),
+                       ("SymbolicVariable", ("ctor", "GeneralTerm::SymbolicTerm", (("0", ("ctor", "SymbolicTerm::Variable", (("0", ("param", "$v")),))),)))):
+            if leaves.norm(sym.Eval(fx, inline_depth=0).function(b, [n_, M])) != n_:
+                bad.append(k_)
+        ctx.add(rule, "placeholders:other-terms", not bad, ctx.site(b), "every other term is left as it is: %s" % (bad or "ok"))
